@@ -85,6 +85,9 @@ let handle (toks : string list) : string =
   | ["markknown"; which; card; already; self] ->
     let mx = if which = "blocks" then max_known_blocks else max_known_txs in
     dec (mark_known mx (n_of_string card) (bool_of_tok already) (bool_of_tok self))
+  | ["hfill"; pend; count; f; l; ch] ->
+    (match headers_fill_rule (bool_of_tok pend) (n_of_string count) (bool_of_tok f) (bool_of_tok l) (bool_of_tok ch) with
+     | HfNoFetch -> "0 nofetch" | HfRejected -> "0 rejected" | HfAccepted n -> dec n ^ " ok")
   | ["headers"; a; av] -> dec (headers_served (n_of_string a) (n_of_string av))
   | ["bufsize"; f] -> dec (frame_buf_size (n_of_string f))
   | ["declen"; h] -> (match snappy_declen (bytes_of_hex h) with Some n -> "ok " ^ dec n | None -> "err")
@@ -163,6 +166,10 @@ let handle (toks : string list) : string =
     (match read_protocol_handshake (n_of_string code) (n_of_string size) (bytes_of_hex payload) with
      | PhTooBig -> "toobig" | PhDisc -> "disc" | PhWrongCode -> "wrongcode" | PhBadBody -> "badbody"
      | PhZeroId -> "zeroid" | PhOk id -> "ok " ^ hex_of_bytes id)
+  | ["phsoutcomes"; early; v] ->
+    (* every (handshake frame compressed?, final rw.snappy) over all interleavings of doProtoHandshake *)
+    let l = List.sort_uniq compare (handshake_outcomes (bool_of_tok early) (n_of_string v)) in
+    String.concat "," (List.map (fun (c, f) -> (if c then "compressed" else "plain") ^ "/" ^ (if f then "snappy" else "nosnappy")) l)
   | ["decmsg"; t; body] ->
     (match dec_msg (n_of_string t) (bytes_of_hex body) with
      | None -> "err" | Some m -> "ok " ^ kind_of m ^ " " ^ hex_of_bytes (encode_msg m))
